@@ -1,6 +1,7 @@
 SPECIFICATION Spec
 CONSTANTS
   PIDS = {256, 257}
+  RESV = {17}
   Period = 5
   MaxOps = 48
   Dev = {}
